@@ -15,6 +15,9 @@ structure XWorld where
   exts : List (Bytes × Ext)                  -- keyed by the object's own SPI
   confs : List (Bytes × Bytes × Conf)        -- (my address, peer address) → connection
   sad : List (Bytes × Nat × Bytes) := []     -- the kernel's SAD as the handlers' requests have left it
+  /-- a NEW object was given an SPI under which another object is already stored: Python objects have identity, the model
+      only has the SPI (64 random bits), so from here on the model may confuse the two objects; sticky -/
+  clash : Bool := false
   deriving Repr
 
 def emptyConf : Conf :=
@@ -26,6 +29,10 @@ def XWorld.extOf (w : XWorld) (spi : Bytes) : Option Ext := (w.exts.find? fun e 
 def XWorld.put (w : XWorld) (spi : Bytes) (e : Ext) : XWorld :=
   if w.exts.any fun x => x.1 = spi then { w with exts := w.exts.map fun x => if x.1 = spi then (spi, e) else x }
   else { w with exts := w.exts ++ [(spi, e)] }
+
+/-- store the extension of an object that did not exist before the call -/
+def XWorld.putNew (w : XWorld) (spi : Bytes) (e : Ext) : XWorld :=
+  { w.put spi e with clash := w.clash || w.exts.any fun x => x.1 = spi }
 
 /-- the object for a core: its extension from the store (a missing one is a correspondence failure) -/
 def XWorld.obj (w : XWorld) (c : SaCore) : XSa × Bool :=
@@ -41,7 +48,9 @@ def runOn (w : XWorld) (s : Sa) (h : HM HRes) : XWorld × HOut :=
   let o := runH h me succ { w.tape with bad := w.tape.bad || b1 || b2 } w.sad
   let w := { w with tape := o.tape, sad := o.sad }
   let w := w.put o.me.core.mySpi o.me.ext
-  let w := match o.succ with | some n => w.put n.core.mySpi n.ext | none => w
+  let w := match o.succ with
+    | some n => if s.succ.map (·.mySpi) = some n.core.mySpi then w.put n.core.mySpi n.ext else w.putNew n.core.mySpi n.ext
+    | none => w
   (w, { sa := { core := o.me.core, succ := o.succ.map (·.core) }, res := o.res, nl := o.nl })
 
 def asRequest (h : HM Msg) : HM HRes := do let r ← h; pure (.request r)
@@ -68,7 +77,7 @@ def concreteHandlers : Handlers XWorld :=
                                        children := [], pending := [], indices := [], myAddr := myAddr, peerAddr := peerAddr, cookie := false },
                              ext := { conf := conf } }
         match newXSa conf now isInit peerSpi myAddr peerAddr { me := dummy, succ := none, tape := w.tape } with
-        | (.ok x, s) => (({ w with tape := s.tape }).put x.core.mySpi x.ext, some x.core)
+        | (.ok x, s) => (({ w with tape := s.tape }).putNew x.core.mySpi x.ext, some x.core)
         | (.error _, s) => ({ w with tape := s.tape }, none) }
 
 
